@@ -110,6 +110,12 @@ def _scenarios():
         ('fault', 'RuntimeError'), None)
     add("entry action requests a chained transition and then fails: nothing stays pending", ('chain', 'guard'),
         'A', True, 'e', {}, {'cond': True, 'enter': {'B': [('g', {}), 'RAISE']}}, ('fault', 'RuntimeError'), None)
+    add("exit action fails (a non-fatal error such as an unknown event sent from it): the guard is released",
+        ('guard',), 'A', True, 'e', {}, {'cond': True, 'exit': {'A': 'raise'}}, ('fault', 'RuntimeError'), None)
+    add("a recipient of an on_exit event fails: the guard is released", ('guard',), 'A', True, 'e', {},
+        {'cond': True, 'send': {'on_exit': 'raise'}}, ('fault', 'RuntimeError'), None)
+    add("a recipient of an on_enter event fails: the guard is released", ('guard',), 'A', True, 'e', {},
+        {'cond': True, 'send': {'on_enter': 'raise'}}, ('fault', 'RuntimeError'), None)
     add("rejected nested event inside an entry action changes nothing", ('chain', 'reject', 'data'), 'A', True,
         'e', {'k': 1}, {'cond': True, 'enter': {'B': [('f', {'z': 9})]}}, ('return', True),
         [cb('cond', 'e', {'k': 1}), cb('exit', 'A', {'k': 1}), ('ev', 'on_exit'), ('T0',), ('S', 'B'),
@@ -188,6 +194,8 @@ def fsm_ctx_run(ck):
                 if kind == 'cond':
                     # two conditions (instance callback and method): ALL of them must be true
                     return [script.get('cond', True), True]
+                if kind == 'exit' and script.get('exit', {}).get(name) == 'raise':
+                    raise RuntimeError('exit action failed')
                 if kind == 'enter':
                     todo = script.get('enter', {}).get(name)
                     if todo == 'raise':
@@ -208,6 +216,10 @@ def fsm_ctx_run(ck):
                 for et, dt in script.get('timer', {}).get(cur, []):
                     reenter(_me, et, dt)
             start_timer.wants_me = True
+            def send_events(which):
+                T.append(('ev', which))
+                if script.get('send', {}).get(which) == 'raise':
+                    raise RuntimeError('event recipient failed')
             notrans = Obj('on_notrans', {'send': lambda *a, **k: T.append(('notrans', k))})
             env = {
                 'self': 'SELF', p_et: sc['etype'], p_data: dict(sc['data']),
@@ -223,7 +235,7 @@ def fsm_ctx_run(ck):
                 'self._on_notrans': (notrans,),
                 'self.is_initialized': lambda: sc['init'],
                 'self._run_cb': run_cb,
-                'self._send_events': lambda which: T.append(('ev', which)),
+                'self._send_events': send_events,
                 'self._stop_timer': lambda: T.append(('T0',)),
                 'self._start_timer': start_timer,
                 'self.calc_output': lambda: (T.append(('C',)), 'OUT')[1],
